@@ -39,6 +39,7 @@ type errAnalysis struct {
 	before  map[*ssa.Function]map[ssa.Instruction]*errState
 	sentBit map[*ssa.Global]errBits
 	allSent errBits
+	boxed   errBits // what an error carried in a reflect.Value (result of a VM function) can be
 }
 
 func (a *errAnalysis) bitName(b errBits) string {
@@ -200,8 +201,22 @@ func (f *errFlow) abs(v ssa.Value, s *errState, depth int) errBits {
 				res = eOther
 			}
 		}
-	case *ssa.Extract, *ssa.TypeAssert:
+	case *ssa.TypeAssert:
 		res = eNil | eOther
+		if boxedError(x) {
+			// an error carried in a reflect.Value (second result of a VM function): whatever the package boxes
+			res = f.a.boxed
+		}
+	case *ssa.Extract:
+		res = eNil | eOther
+		if c, ok := x.Tuple.(*ssa.Call); ok {
+			if callee := staticCallee(c); callee != nil && callee.Pkg == f.a.m.sp && returnsBoxedError(callee) {
+				res = f.a.boxed
+			}
+		}
+		if ta, ok := x.Tuple.(*ssa.TypeAssert); ok && boxedError(ta) {
+			res = f.a.boxed
+		}
 	case *ssa.Parameter, *ssa.FreeVar:
 		res = all
 	}
@@ -362,6 +377,7 @@ func buildErrAnalysis(m *vmModel) *errAnalysis {
 		a.sentBit[g] = eSent0 << uint(i)
 		a.allSent |= eSent0 << uint(i)
 	}
+	a.boxed = a.boxedBits()
 	fns := m.funcsOnRecord()
 	// summaries
 	for iter := 0; iter < 30; iter++ {
@@ -641,4 +657,90 @@ func (a *errAnalysis) clauseSummary(role, kind string) (errSummary, bool) {
 	sm := errSummary{preserve: u&eEntry != 0, gen: u &^ eEntry}
 	a.clause[key] = sm
 	return sm, true
+}
+
+// boxedError: ta asserts the Interface() of a reflect.Value to the error interface.
+func boxedError(ta *ssa.TypeAssert) bool {
+	if !isErrorType(ta.AssertedType) {
+		return false
+	}
+	c, ok := ta.X.(*ssa.Call)
+	return ok && reflectMethod(c) == "Interface"
+}
+
+// returnsBoxedError: some return of fn hands on an error unboxed from a reflect.Value.
+func returnsBoxedError(fn *ssa.Function) bool {
+	for _, b := range fn.Blocks {
+		ret, ok := b.Instrs[len(b.Instrs)-1].(*ssa.Return)
+		if !ok {
+			continue
+		}
+		for _, v := range ret.Results {
+			if ta, ok := v.(*ssa.TypeAssert); ok && boxedError(ta) {
+				return true
+			}
+		}
+	}
+	return false
+}
+
+// boxedBits: the union of what package vm puts into a reflect.Value as an error: reflect.ValueOf(<error>) sites are classified
+// (a sentinel variable, a wrapped error, nil); an error of unknown origin makes it "anything".
+func (a *errAnalysis) boxedBits() errBits {
+	all := eNil | eOther | a.allSent
+	res := eNil
+	for _, fn := range a.m.fns {
+		// the VM function protocol: (value, error) both carried as reflect.Value
+		if rs := fn.Signature.Results(); rs.Len() != 2 || !isReflectValue(rs.At(0).Type()) || !isReflectValue(rs.At(1).Type()) {
+			continue
+		}
+		for _, b := range fn.Blocks {
+			for _, in := range b.Instrs {
+				c, ok := in.(*ssa.Call)
+				if !ok {
+					continue
+				}
+				if o := calleeObj(c); o == nil || !isFuncNamed(o, "reflect", "", "ValueOf") {
+					continue
+				}
+				var ev ssa.Value
+				switch x := c.Call.Args[0].(type) {
+				case *ssa.ChangeInterface:
+					if isErrorType(x.X.Type()) {
+						ev = x.X
+					}
+				case *ssa.MakeInterface:
+					if pt, ok := x.X.Type().(*types.Pointer); ok && isNamed(pt.Elem(), a.m.sp.Pkg.Path(), "Error") {
+						res |= eOther
+					}
+				}
+				if ev == nil {
+					continue
+				}
+				switch x := ev.(type) {
+				case *ssa.UnOp:
+					if g, ok := x.X.(*ssa.Global); ok {
+						if bit, ok := a.sentBit[g]; ok {
+							res |= bit
+						} else {
+							res |= eOther
+						}
+						continue
+					}
+					res |= all
+				case *ssa.Call:
+					if callee := staticCallee(x); callee != nil && callee.Pkg == a.m.sp && len(x.Call.Args) == 2 && isErrorType(x.Call.Args[1].Type()) {
+						res |= eOther // newError(pos, err): a wrapped error
+						continue
+					}
+					res |= all
+				case *ssa.Const:
+					res |= eNil
+				default:
+					res |= all
+				}
+			}
+		}
+	}
+	return res
 }
